@@ -97,7 +97,8 @@ ENGINES = [
   "kind_free_text": "query AST model (access/prepare/get/borrows, iterators, views, batched, prepared); 110 generated self-describing query types"},
 ]
 PARTIAL = {
- "C03": "Partial in one respect: panics raised by user code (component Clone/Drop impls) and the unwinding they cause are not modelled.",
+ "C03": "Partial in one respect: panics raised by user code (component Clone/Drop impls) and the unwinding they cause are not modelled "
+        "(one such path is exercised on the implementation side only: every builder clear unwinds through a last component whose destructor panics).",
  "C04": "Partial by nature: memory safety is a fact about the machine execution; the theorems cover the layout arithmetic it rests on "
         "(capacities, alignment, bounds, disjointness, arena placement, row existence), the run-time address / allocator / "
         "alignment oracles cover the executions run; no MSan-like detection of uninitialised reads.",
